@@ -866,6 +866,27 @@ func daHistory(e *Env, zk *daZk, h int) {
 		}
 	}
 	for k := 0; k < steps; k++ {
+		// in the middle of some histories governance lowers max_validators by one: at the next staking end-block the weakest
+		// bonded validator starts UNBONDING (not jailed) with the fault counters it has collected so far; at the epoch end it
+		// is not a bonded validator any more
+		if k == steps/3+(h%3)*steps/6 && nv >= 3 && h%2 == 0 {
+			sp, _ := c.App.StakingKeeper.Params.Get(c.Ctx())
+			if sp.MaxValidators > 1 {
+				bondedNow := uint32(0)
+				for _, b := range cur.bonded {
+					if b {
+						bondedNow++
+					}
+				}
+				if bondedNow > 1 {
+					sp.MaxValidators = bondedNow - 1
+					sp.KeyRotationFee = sdk.NewCoin(sp.BondDenom, sp.KeyRotationFee.Amount)
+					gov := authtypes.NewModuleAddress("gov").String()
+					_, err, p := c.Exec(&stakingtypes.MsgUpdateParams{Authority: gov, Params: sp})
+					e.Stat("midhistory.max_validators_lowered." + class(err, p))
+				}
+			}
+		}
 		pre := cur
 		// choose an operation kind by what the state offers
 		var cpItems, chItems, termItems []string
@@ -1271,13 +1292,42 @@ func (w *daWorld) block(pre daSnap, dt int64, cur *daSnap) (active []string, asg
 	// Boundary values the DA end-blocker of the coming block will see, taken from the committed state: a validator
 	// jailed earlier has left the power index already and is unbonded by staking's end-blocker, which runs first;
 	// x/da's own jailing happens after its tally. (GetZkpThreshold counts the same set.)
+	// A change of the staking parameters (max_validators lowered) makes staking's end-blocker of the coming block — which runs
+	// before x/da's — unbond a validator that is still bonded in the committed state: the bonded set x/da will see is read from
+	// a throw-away branch on which staking's end-blocker has run.
+	willBeBonded := map[string]bool{}
+	setChanges := false
+	{
+		ctx, _ := c.Ctx().CacheContext()
+		var perr error
+		func() {
+			defer func() {
+				if r := recover(); r != nil {
+					perr = fmt.Errorf("%v", r)
+				}
+			}()
+			_, perr = c.App.StakingKeeper.EndBlocker(ctx)
+		}()
+		for i, v := range w.vals {
+			willBeBonded[v] = pre.bonded[v]
+			if perr == nil && i < len(c.Vals) {
+				if val, err := c.App.StakingKeeper.GetValidator(ctx, c.Vals[i].Oper); err == nil {
+					willBeBonded[v] = val.IsBonded()
+				}
+			}
+			if willBeBonded[v] != pre.bonded[v] {
+				setChanges = true
+				e.Stat("block.bonded_set_changes_in_this_block")
+			}
+		}
+	}
 	var ext []string
 	for _, v := range w.vals {
 		b, j := 0, 0
 		if pre.jailed[v] {
 			j = 1
 		}
-		if pre.bonded[v] && !pre.jailed[v] {
+		if willBeBonded[v] && !pre.jailed[v] {
 			b = 1
 			active = append(active, v)
 		}
@@ -1300,7 +1350,7 @@ func (w *daWorld) block(pre daSnap, dt int64, cur *daSnap) (active []string, asg
 		// the assignment threshold by its definition, from the number of BONDED validators the harness sees (not from the keeper:
 		// the keeper's GetZkpThreshold is compared with it below)
 		thr := w.refThreshold(it.shards, len(active))
-		if got, err := w.safeThreshold(uint64(it.shards)); err == nil {
+		if got, err := w.safeThreshold(uint64(it.shards)); err == nil && !setChanges { // the keeper is asked on the committed state
 			e.Oracle("threshold_ref", int64(got) == thr, "item %s shards=%d bonded=%d GetZkpThreshold=%d definition=%d", u, it.shards, len(active), got, thr)
 		}
 		for _, v := range active {
